@@ -107,7 +107,9 @@ pub struct Outcome {
 pub struct Finding {
     pub group: &'static str,
     pub entry: u32,
-    pub stage: &'static str,
+    /// Which part of the load path was executing (derived from the rten
+    /// frames under the panic / refused allocation), or what was examined.
+    pub stage: String,
     pub class: String,
     pub detail: String,
 }
@@ -187,6 +189,30 @@ pub fn norm_panic(msg: &str) -> String {
 /// model can make the optimiser really fill what it is given).
 pub const LOAD_REFUSE_ABOVE: usize = (1 << 30) + (1 << 16);
 
+/// Which part of the load path do these rten frames ("file[:line] <- ...",
+/// innermost first) belong to?
+pub fn phase_of(frames: &str) -> &'static str {
+    let fs: Vec<&str> = frames.split(" <- ").map(|f| f.trim()).collect();
+    if fs.iter().any(|f| f.starts_with("src/ops/")) {
+        // An operator's code runs at load time only when the optimiser
+        // evaluates constant sub-graphs (or for weight pre-packing).
+        "operator_evaluation"
+    } else if fs.iter().any(|f| f.starts_with("rten-shape-inference/") || f.starts_with("src/infer_shapes.rs")) {
+        "shape_inference"
+    } else if fs.iter().any(|f| f.starts_with("src/optimize")) {
+        "graph_optimizer"
+    } else {
+        "model_loader"
+    }
+}
+
+fn frames_of_panic(msg: &str) -> &str {
+    match msg.find(" [frames ") {
+        Some(i) => msg[i + 9..].trim_end_matches(']'),
+        None => "",
+    }
+}
+
 fn justified_alloc(len: usize) -> u64 {
     16 * len as u64 + (1 << 20)
 }
@@ -201,20 +227,20 @@ pub fn judge(bytes: &[u8], oc: &Outcome) -> Vec<Finding> {
     for o in &oc.outs {
         let group = ex::entry_group(o.entry);
         if o.status == "panic" {
-            push(Finding { group, entry: o.entry, stage: "load", class: format!("panic:{}", norm_panic(&o.msg)), detail: format!("{} panicked: {}", ex::entry_name(o.entry), o.msg) });
+            push(Finding { group, entry: o.entry, stage: phase_of(frames_of_panic(&o.msg)).to_string(), class: format!("panic:{}", norm_panic(&o.msg)), detail: format!("{} panicked: {}", ex::entry_name(o.entry), o.msg) });
         }
         if let Some(b) = o.bad.first() {
             let class = b.split('|').next().unwrap_or("malformed");
             push(Finding {
                 group,
                 entry: o.entry,
-                stage: "loaded_model",
+                stage: "loaded_model".into(),
                 class: format!("malformed_constant:{}", class),
                 detail: format!("{} returned a model with a malformed constant: {}", ex::entry_name(o.entry), o.bad.join("; ")),
             });
         }
         if let Some(b) = o.const_out_bad.first() {
-            push(Finding { group, entry: o.entry, stage: "loaded_model", class: "malformed_constant:returned_constant_mismatch".into(), detail: format!("{}: {}", ex::entry_name(o.entry), b) });
+            push(Finding { group, entry: o.entry, stage: "loaded_model".into(), class: "malformed_constant:returned_constant_mismatch".into(), detail: format!("{}: {}", ex::entry_name(o.entry), b) });
         }
     }
     if let Some(c) = &oc.crash {
@@ -246,12 +272,15 @@ pub fn judge(bytes: &[u8], oc: &Outcome) -> Vec<Finding> {
         };
         if counts {
             let stage = match c.stage {
-                ex::ST_LOAD => "load",
+                ex::ST_LOAD => match c.stderr.lines().rev().find(|l| l.starts_with("C05-ALLOC-REFUSED")).and_then(|l| l.split("rten frames: ").nth(1)) {
+                    Some(fr) if c.class.starts_with("abort:alloc") => phase_of(fr),
+                    _ => "load",
+                },
                 ex::ST_WALK | ex::ST_READ => "read_constants",
                 ex::ST_DROP => "drop_model",
                 _ => "run_with_malformed_constant",
             };
-            push(Finding { group, entry: c.entry, stage, class: c.class.clone(), detail });
+            push(Finding { group, entry: c.entry, stage: stage.to_string(), class: c.class.clone(), detail });
         }
     }
     fs
@@ -833,7 +862,7 @@ impl<'a> Runner<'a> {
         } else {
             let max_exec = if case.bytes.len() > 100_000 { 30 } else { self.shrink_exec };
             let box_s = self.shrink_box_s;
-            let kills_process = f.stage != "load" && f.stage != "loaded_model" || !(f.class.starts_with("panic:") || f.class.starts_with("malformed_constant:"));
+            let kills_process = !(f.class.starts_with("panic:") || f.class.starts_with("malformed_constant:"));
             let res = if kills_process {
                 // One child per attempt: keep it short.
                 shrink::ddmin(&case.bytes, max_exec.min(60), |cand| {
@@ -943,7 +972,7 @@ pub fn run(args: &Args) {
     let pack_dir = args.get("packs").map(|s| s.to_string()).or_else(|| std::env::var("VERIF_PACK_DIR").ok());
     let mut pack_problem = None;
     if let Some(dir) = &pack_dir {
-        let cap = if args.thorough { 4000 } else { 400 };
+        let cap = if args.thorough { 4000 } else if ctx.asan { 120 } else { 400 };
         for fam in ["singleop", "dag", "cflow"] {
             match read_pack_models(dir, fam, shard, shards, cap) {
                 Ok(ms) => {
@@ -979,7 +1008,7 @@ pub fn run(args: &Args) {
         runner.shrink_exec = 400;
         runner.shrink_box_s = 30.0;
     }
-    let batch_size: usize = if ctx.asan { 64 } else { 256 };
+    let batch_size: usize = 256;
     let budget = args.budget(24_000, 2_400_000);
 
     // ---- pinned witnesses of open findings (shard 0 only)
@@ -1003,7 +1032,7 @@ pub fn run(args: &Args) {
     let mut seed_cases: Vec<(Case, bool)> = Vec::new();
     for (i, s) in pools.onnx.iter().enumerate() {
         // built-in seeds on every shard (cheap); pack models are already sharded
-        if s.name.contains('-') && i % 4 != 0 {
+        if s.name.contains('-') && i % (if ctx.asan { 16 } else { 4 }) != 0 {
             continue;
         }
         seed_cases.push((Case { bytes: s.bytes.clone(), fmt: Fmt::Onnx, origin: Fmt::Onnx, class: "seed".into(), seed_name: s.name.clone(), structured: true, mask: FULL_MASK, run_model: true }, s.must_load));
